@@ -187,7 +187,12 @@ func H_C20_parsefile() {
 // newline characters inside string literals and keys (raw, or directly after a backslash) that precede the
 // error are newline characters of the input like any other: they count
 func hStrBody() string {
-	switch nondetIntRange(0, 3) {
+	switch nondetIntRange(0, 4) {
+	case 4:
+		// one arbitrary code point (no quote, backslash or control character): only the byte 0x0A is a newline
+		r := hValidRune()
+		verifAssume(verifAnd(r >= 0x20, verifAnd(r != '"', r != '\\')))
+		return string(r)
 	case 0:
 		return "x"
 	case 1:
